@@ -136,6 +136,10 @@ def run_case(case, keep_re=False, real_timeout=300):
         old = signal.signal(signal.SIGALRM, _alarm)
         signal.setitimer(signal.ITIMER_REAL, real_timeout)
     obs = Obs()
+    import sys
+
+    old_hook = sys.unraisablehook
+    sys.unraisablehook = lambda *a, **k: None  # a wedged engine's _run coroutine is destroyed at teardown
     try:
         with contextlib.redirect_stdout(io.StringIO()):
             _run(case, obs, keep_re)
@@ -151,6 +155,11 @@ def run_case(case, keep_re=False, real_timeout=300):
             signal.setitimer(signal.ITIMER_REAL, 0)
             signal.signal(signal.SIGALRM, old)
         _teardown(obs)
+        import gc
+
+        if obs.final_state not in ("idle", None) or obs.stuck:
+            gc.collect()
+        sys.unraisablehook = old_hook
     if obs.harness_error:
         try:
             import json, os, time as _t
